@@ -5,6 +5,9 @@ import (
 	"context"
 	"errors"
 	"fmt"
+	"github.com/pion/logging"
+	"github.com/pion/transport/v3/dpipe"
+	"github.com/pion/transport/v3/vnet"
 	"net"
 	"sync"
 	"sync/atomic"
@@ -116,26 +119,69 @@ func mkFreeCtx(o fop) (context.Context, context.CancelFunc) {
 	return context.WithTimeout(context.Background(), time.Second)
 }
 
-const ruleC17Free = "rapid-drawn program run on free goroutines and the real clock: netctx.Conn or connctx over net.Pipe (stream), or netctx.PacketConn over a pair of loopback UDP sockets; 1..2 directions, per direction 1..6 writes (1..40 bytes; context: 1 s / cancelled before / WithTimeout(d) / cancel() by a timer after d) and 1..6 reads (never a live context), pauses and d drawn from {0, 20, 50, 100, 200, 500 us, 2 ms} so that cancellation, arrival and completion collide; afterwards the reader keeps reading with fresh 20 ms contexts until everything reported written has arrived (these are the probe operations of the statement), then one more read must time out; oracle: 0 bytes with a done context => the context's error; n>0 => nil error (stream: short writes carry the wrapped error); bytes (stream) or messages (packets, in order) received == reported written, nothing beyond; after every returned operation the recorded deadline of the wrapped connection for that direction is zero; an operation returns within 2 s of its context firing; non-trivial = some operation transferred data although its context fired between its start and its return (measured with context.AfterFunc); distinct by hash of the program"
+const ruleC17Free = "rapid-drawn program run on free goroutines and the real clock: netctx.Conn or connctx over net.Pipe (stream), netctx.PacketConn over a pair of loopback UDP sockets or over two sockets of a vnet router, or netctx.Conn over a dpipe pair (messages; the last two report timeouts with errors of their own, not os.ErrDeadlineExceeded); 1..2 directions, per direction 1..6 writes (1..40 bytes; context: 1 s / cancelled before / WithTimeout(d) / cancel() by a timer after d) and 1..6 reads (never a live context), pauses and d drawn from {0, 20, 50, 100, 200, 500 us, 2 ms} so that cancellation, arrival and completion collide; afterwards the reader keeps reading with fresh 20 ms contexts until everything reported written has arrived (these are the probe operations of the statement), then one more read must time out; oracle: 0 bytes with a done context => the context's error; n>0 => nil error (stream: short writes carry the wrapped error); bytes (stream) or messages (packets, in order) received == reported written, nothing beyond; after every returned operation the recorded deadline of the wrapped connection for that direction is zero; an operation returns within 2 s of its context firing; non-trivial = some operation transferred data although its context fired between its start and its return (measured with context.AfterFunc); distinct by hash of the program"
 
 func TestC17FreeRunning(t *testing.T) {
 	r := ev.New("C17", "free-running", ruleC17Free)
-	r.Essential = []string{"flavour/netctx.Conn", "flavour/connctx", "flavour/udp-packet", "cancelled/zero-bytes", "cancelled/with-data"}
+	r.Essential = []string{"flavour/netctx.Conn", "flavour/connctx", "flavour/udp-packet", "flavour/vnet-packet", "flavour/dpipe-messages", "cancelled/zero-bytes", "cancelled/with-data"}
 	r.MinForEssential = 200
 	r.Assume("loopback UDP between two sockets of this process neither loses nor reorders datagrams at one datagram in flight per direction")
 	r.Check(t, func(t *rapid.T, c *ev.Case) {
-		flavour := rapid.IntRange(0, 2).Draw(t, "flavour")
+		flavour := rapid.IntRange(0, 4).Draw(t, "flavour")
 		var epA, epB endpoint
 		var recA, recB dlRec
-		stream := flavour != 2
-		name := flavours[flavour]
-		if stream {
+		stream := flavour < 2
+		name := ""
+		if flavour < len(flavours) {
+			name = flavours[flavour]
+		}
+		switch {
+		case flavour == 3:
+			// netctx.PacketConn over sockets of the module's own virtual network: their timeout
+			// error is a *net.OpError of their own making, not os.ErrDeadlineExceeded
+			name = "vnet-packet"
+			router, err := vnet.NewRouter(&vnet.RouterConfig{CIDR: "10.9.0.0/24", LoggerFactory: quietLF()})
+			if err != nil {
+				t.Fatalf("VERIF-INFRA: %v", err)
+			}
+			na, _ := vnet.NewNet(&vnet.NetConfig{StaticIPs: []string{"10.9.0.1"}})
+			nb, _ := vnet.NewNet(&vnet.NetConfig{StaticIPs: []string{"10.9.0.2"}})
+			for _, e := range []error{router.AddNet(na), router.AddNet(nb), router.Start()} {
+				if e != nil {
+					t.Fatalf("VERIF-INFRA: %v", e)
+				}
+			}
+			defer router.Stop() //nolint:errcheck
+			va, err := na.ListenPacket("udp4", "10.9.0.1:5000")
+			if err != nil {
+				t.Fatalf("VERIF-INFRA: %v", err)
+			}
+			vb, err := nb.ListenPacket("udp4", "10.9.0.2:5000")
+			if err != nil {
+				t.Fatalf("VERIF-INFRA: %v", err)
+			}
+			defer va.Close() //nolint:errcheck
+			defer vb.Close() //nolint:errcheck
+			a, b := &recPacketConn{PacketConn: va}, &recPacketConn{PacketConn: vb}
+			epA = epPacket{netctx.NewPacketConn(a), vb.LocalAddr()}
+			epB = epPacket{netctx.NewPacketConn(b), va.LocalAddr()}
+			recA, recB = a, b
+		case flavour == 4:
+			// netctx.Conn over the module's datagram pipe: one message per read, and again a
+			// timeout error of its own
+			name = "dpipe-messages"
+			rawA, rawB := dpipe.Pipe()
+			a, b := &recConn{Conn: rawA}, &recConn{Conn: rawB}
+			defer rawA.Close() //nolint:errcheck
+			defer rawB.Close() //nolint:errcheck
+			epA, epB, recA, recB = mkEndpoint(0, a), mkEndpoint(0, b), a, b
+		case stream:
 			rawA, rawB := net.Pipe()
 			a, b := &recConn{Conn: rawA}, &recConn{Conn: rawB}
 			defer rawA.Close() //nolint:errcheck
 			defer rawB.Close() //nolint:errcheck
 			epA, epB, recA, recB = mkEndpoint(flavour, a), mkEndpoint(flavour, b), a, b
-		} else {
+		default:
 			name = "udp-packet"
 			ua, err := net.ListenUDP("udp4", &net.UDPAddr{IP: net.IPv4(127, 0, 0, 1)})
 			if err != nil {
@@ -352,4 +398,10 @@ func TestC17FreeRunning(t *testing.T) {
 		c.Count("ops_cancelled_zero", zeroCancelled.Load())
 		c.Count("ops_cancelled_with_data", dataCancelled.Load())
 	})
+}
+
+func quietLF() logging.LoggerFactory {
+	lf := logging.NewDefaultLoggerFactory()
+	lf.DefaultLogLevel = logging.LogLevelDisabled
+	return lf
 }
